@@ -47,7 +47,8 @@ Proof. exact hidden_not_in_description_partial. Qed.
 Print Assumptions C16_hidden_not_in_description_partial.
 
 (* the default shown is the effective default: the definition's, overridden by what a default instance / set_defaults /
-   a config file installed (D; their layering is C06).  Side condition: the help text is empty or not blank. *)
+   a config file installed (D; their layering is C06) - also when that value is falsy (0, 0.0, False, "", []): the proof
+   uses the regenerated test at the head of FieldWrapper.default (`self._default is not None`).  Side condition: the help text is empty or not blank. *)
 Theorem C16_default_shown : forall perm c D f v,
   help_ok f = true -> spec_effective D f = Some v -> e_default (entry_of_gen perm c D f) = Some v.
 Proof. exact default_shown. Qed.
@@ -165,10 +166,10 @@ Print Assumptions C16_print_help_not_inert_today.
    prints for it under the identity oracle, and that the oracle rebuilt from observations is always valid ------------- *)
 Example C16_nonvacuous :
   valid (perm_of [["--bb"; "--cc"]])
-  /\ run_cli_help_gen (perm_of [["--bb"; "--cc"]]) default_cfg_parser CRAuto [] [("a.bb", "7")] demo_forest
-     = mkrun (Exit 0) (Some (SOut, [mkgroup "K1 ['a']" "Doc of K1." [mkentry "a.bb" ["--bb"; "--cc"] (Some "7") "the value";
+  /\ run_cli_help_gen (perm_of [["--bb"; "--cc"]]) default_cfg_parser CRAuto [] [("a.bb", mkdv "0" true)] demo_forest
+     = mkrun (Exit 0) (Some (SOut, [mkgroup "K1 ['a']" "Doc of K1." [mkentry "a.bb" ["--bb"; "--cc"] (Some "0") "the value";
                                                         mkentry "a.x" ["-x"; "--x"] None ""]]))
-  /\ forest_tie_free default_cfg_parser [mkhw "K1" ["a"] "Doc." [mkhf (mkfw ["a"] "x" "" [] false) true None "" None]] = true
+  /\ forest_tie_free default_cfg_parser [mkhw "K1" ["a"] "Doc." [mkhf (mkfw ["a"] "x" "" [] false) true None "" None false]] = true
   /\ NoDup (map hdest (flat_map hw_fields demo_forest)).
 Proof.
   split; [apply perm_of_valid|]. split; [vm_compute; reflexivity|]. split; [vm_compute; reflexivity|].
